@@ -134,3 +134,108 @@ Example C12_undiscovered_source_nonvacuous :
     = Some (if reader_intersects_sampled_sources then [0; 1] else [0; 1; 2])%N /\
   map m_ord (spec_messages lenv (with_src [0; 5]%N (call [POSE])) true) = [0; 1; 2]%N.
 Proof. exact undiscovered_source_instances. Qed.
+
+(* ---------------------------------------------------------------------------------------------------------------
+   LINK with the proved model of the log reader (C10 / C11: Models/LogReaderM.v, Models/FileIndexOpsM.v).
+   Proofs/DataLoaderLinkP.v defines [link_env]: the environment whose reader selections are the reader model's own
+   functions on the index of a file [f] (FileIndex.__getitem__(TimeRange) of C10/C11, the type filter, the removal of
+   untimed entries).  [p1], [sy], [dec] are the three facts about a payload the reader model does not carry
+   (get_p1_time() / get_system_time_ns() is not None; the payload class exists and parses); [al] is any
+   time-alignment function that keeps dictionary keys.  Hypotheses are C10's: [wf_file] (messages consecutive, P1 times
+   do not decrease) and [range_has_t0] (a time bound needs some P1 time in the log), plus non-negative type / source
+   ids and [requested_decode]. *)
+From FEC Require Models.FileIndexOpsM Models.LogReaderM Proofs.LogReaderP Proofs.DataLoaderLinkP.
+Module L := DataLoaderLinkP.
+Module R := LogReaderM.
+Module RP := LogReaderP.
+Module F := FileIndexOpsM.
+
+Theorem C12_link_env_ok : forall p1 sy dec al,
+  (forall mode at_ r, map fst (al mode at_ r) = map fst r) ->
+  forall f avail, env_ok (L.link_env p1 sy dec al f avail).
+Proof. exact L.link_env_ok. Qed.
+Print Assumptions C12_link_env_ok.
+
+(* The operations _read performs on the reader - rewind, clear_filters, filter_in_place(time_range),
+   filter_in_place(message_types), the source ids, filter_out_invalid_p1_times, the int pre-slice, read_next until
+   StopIteration - executed in the operational reader model (filter_in_place with its relocation arithmetic, as proved
+   in C11) from ANY reader state over the file's index, read exactly: slice (remove-untimed (types (time window))) of
+   the index, passed through the read-time source test ... *)
+Theorem C12_reader_drive_is_selection : forall c f r Rg tys srcs rm sl,
+  R.wf_file f -> R.r_orig r = R.index_of_file f None -> R.c_max_bytes c = None -> RP.range_has_t0 c f (Some Rg) ->
+  let w := R.spec_window (R.f_msgs f) (Some Rg) in
+  L.drive c f r Rg tys srcs rm sl
+  = F.Ok (RP.read_all c srcs f
+            (L.sl_sel sl (L.rm_sel rm (filter (RP.tyf (Some tys))
+               (F.filter_pos (F.window_ok (fst w) (snd w)) (F.fi_data (R.index_of_file f None))))))).
+Proof. exact L.drive_selection. Qed.
+Print Assumptions C12_reader_drive_is_selection.
+
+(* ... and that index selection is, entry for entry, the list the DataLoader model runs its loop over. *)
+Theorem C12_loader_index_is_reader_selection : forall p1 sy dec al,
+  (forall mode at_ r, map fst (al mode at_ r) = map fst r) ->
+  forall f avail p types b sl,
+  R.wf_file f -> L.ids_nonneg f -> RP.range_has_t0 L.c_idx f (Some (L.tr_link (p_tr p))) ->
+  let w := R.spec_window (R.f_msgs f) (Some (L.tr_link (p_tr p))) in
+  Forall2 (L.rel p1 sy dec f)
+    (match sl with Some n => pre_slice n (index_select (L.link_env p1 sy dec al f avail) p types b)
+                 | None => index_select (L.link_env p1 sy dec al f avail) p types b end)
+    (L.sl_sel sl (L.rm_sel (p_p1 p && negb b) (filter (RP.tyf (Some (L.typesZ types)))
+                   (F.filter_pos (F.window_ok (fst w) (snd w)) (F.fi_data (R.index_of_file f None)))))).
+Proof. exact L.loader_index_rel. Qed.
+Print Assumptions C12_loader_index_is_reader_selection.
+
+(* "The returned messages are those of the log reader under the same filters", with the log reader being the proved
+   model: after ANY history, the messages read() returns correspond one to one, in file order ([Forall2 rel_spec]: same
+   message, same file ordinal), to C10's SPEC filter [spec_read] (type /\ source /\ time position among the timed
+   messages), restricted by the read-time tests ([extraZ]: P1 time present / valid when required, system time present
+   when required, payload parses) and limited to the first / last N.  Dict output: *)
+Theorem C12_read_is_reader_filter : forall p1 sy dec al,
+  (forall mode at_ r, map fst (al mode at_ r) = map fst r) ->
+  forall f avail h a p types ign n0 ns,
+  R.wf_file f -> L.ids_nonneg f -> L.requested_decode p1 sy dec al f avail a ->
+  norm_args (L.link_env p1 sy dec al f avail) a = (p, types, ign) -> reduce_needed p types = n0 :: ns ->
+  RP.range_has_t0 L.c_idx f (Some (L.tr_link (a_tr a))) ->
+  a_order a = false -> a_align a = align_none -> (a_numpy a = false \/ a_keep a = true) ->
+  exists r M,
+    snd (read (L.link_env p1 sy dec al f avail) (run (L.link_env p1 sy dec al f avail) init_state h) a) = OutDict r /\
+    map fst r = types /\
+    (forall t d, lookup_data t r = Some d -> d_msgs d = map RFile (of_type t M)) /\
+    Forall2 (L.rel_spec p1 sy dec) M
+      (L.limit_gen (a_max a)
+         (filter (L.extraZ p1 sy dec p (existsb (fun t => memN t sys_types) (n0 :: ns)))
+                 (R.spec_read L.c_idx f (L.srcsZ p) (Some (L.typesZ types)) (Some (L.tr_link (a_tr a)))))).
+Proof. exact L.read_is_reader_filter_dict. Qed.
+Print Assumptions C12_read_is_reader_filter.
+
+(* in-order output *)
+Theorem C12_read_is_reader_filter_in_order : forall p1 sy dec al,
+  (forall mode at_ r, map fst (al mode at_ r) = map fst r) ->
+  forall f avail h a p types ign n0 ns,
+  R.wf_file f -> L.ids_nonneg f -> L.requested_decode p1 sy dec al f avail a ->
+  norm_args (L.link_env p1 sy dec al f avail) a = (p, types, ign) -> reduce_needed p types = n0 :: ns ->
+  RP.range_has_t0 L.c_idx f (Some (L.tr_link (a_tr a))) ->
+  a_order a = true ->
+  exists d M,
+    snd (read (L.link_env p1 sy dec al f avail) (run (L.link_env p1 sy dec al f avail) init_state h) a) = OutOrder d /\
+    d_msgs d = map RFile M /\
+    Forall2 (L.rel_spec p1 sy dec) M
+      (L.limit_gen (a_max a)
+         (filter (L.extraZ p1 sy dec p (existsb (fun t => memN t sys_types) (n0 :: ns)))
+                 (R.spec_read L.c_idx f (L.srcsZ p) (Some (L.typesZ types)) (Some (L.tr_link (a_tr a)))))).
+Proof. exact L.read_is_reader_filter_in_order. Qed.
+Print Assumptions C12_read_is_reader_filter_in_order.
+
+(* Non-vacuity of the link: C10's example log (E P1 E P2 E P3 E U) meets every hypothesis for
+   read([Pose, Event], time_range=(1 s, -), max_messages=-3); both sides of the correspondence are messages #4 #5 #6. *)
+Example C12_link_nonvacuous :
+  R.wf_file LogReaderExamplesP.ex_file /\ L.ids_nonneg LogReaderExamplesP.ex_file /\
+  L.requested_decode L.ex_p1 L.ex_sys L.ex_dec align_impl LogReaderExamplesP.ex_file [0%N] L.ex_args /\
+  RP.range_has_t0 L.c_idx LogReaderExamplesP.ex_file (Some (L.tr_link (a_tr L.ex_args))) /\
+  reduce_needed (fst (fst (norm_args L.ex_env L.ex_args))) (snd (fst (norm_args L.ex_env L.ex_args))) = [10000; 13004]%N /\
+  map m_ord (spec_messages L.ex_env L.ex_args false) = [4; 5; 6]%N /\
+  map (fun x => snd x) (L.limit_gen (Some (-3)%Z)
+        (filter (L.extraZ L.ex_p1 L.ex_sys L.ex_dec (fst (fst (norm_args L.ex_env L.ex_args))) false)
+                (R.spec_read L.c_idx LogReaderExamplesP.ex_file None (Some [10000; 13004]%Z) (Some (L.tr_link (a_tr L.ex_args))))))
+  = [[R.PIndex 4]; [R.PIndex 5]; [R.PIndex 6]].
+Proof. exact L.link_example. Qed.
